@@ -743,6 +743,10 @@ class Evaluator:
             for t2, v2 in zip(target.elts, v[1]):
                 self.assign(t2, v2, fr, st)
             return
+        if isinstance(target, (ast.Tuple, ast.List)) and not any(isinstance(x, ast.Starred) for x in target.elts):
+            for i, t2 in enumerate(target.elts):
+                self.assign(t2, ("item", v, i), fr, st)
+            return
         if isinstance(target, ast.Attribute) and isinstance(target.value, ast.Name) \
                 and fr.env.get(target.value.id, ("?",))[0] == "new":
             base = fr.env[target.value.id]
